@@ -107,7 +107,7 @@ type SeqTable struct {
 
 // SeqOp is one step of an explicit operation list.
 type SeqOp struct {
-	Op    string           `json:"op"` // emit | sync | upsert | delete | register (a table registered again under its name, replacing the earlier one)
+	Op    string           `json:"op"` // emit | sync | stats | upsert | delete | register (a table registered again under its name, replacing the earlier one)
 	Rows  []map[string]any `json:"rows"`
 	Keys  []string         `json:"keys"`
 	Ms    int64            `json:"ms"` // sleep: milliseconds of real time
@@ -465,6 +465,13 @@ func RunSeq(sc SeqScenario) (evs []Ev, inconclusive string) {
 			if src := srcs[op.Table]; src != nil {
 				err := s.RegisterTableSource(src)
 				in.Log(Ev{"tr": sc.Tr, "e": "reregsrc", "name": op.Table, "err": b2i(err != nil)})
+			}
+		case "stats":
+			// the application reads and resets the statistics (monitoring calls: what the windows hold and report stays what it is)
+			_ = s.GetStats()
+			_ = s.GetDetailedStats()
+			if st := s.Stream(); st != nil {
+				st.ResetStats()
 			}
 		case "upsert":
 			err := s.UpsertTable(op.Table, decodeRow(op.Row))
